@@ -28,6 +28,9 @@ type pktSpec struct {
 	exts          []extEl
 	payload       []byte
 	padSize       uint8 // 0 = no padding
+	// aliasScratch: when set, every extension value handed to SetExtension is scratch[:len(value)] — the
+	// caller fills elements from ONE scratch buffer (all values are prefixes of it and start at the same address)
+	aliasScratch []byte
 }
 
 const (
@@ -248,6 +251,9 @@ func (s *pktSpec) buildx(c *core.Ctx, nilEmpty bool) (*rtp.Packet, bool) {
 			val := append([]byte{}, e.val...)
 			if nilEmpty && len(val) == 0 {
 				val = nil
+			}
+			if s.aliasScratch != nil && len(e.val) > 0 && len(e.val) <= len(s.aliasScratch) {
+				val = s.aliasScratch[:len(e.val)]
 			}
 			if c.Guard("rtp.Header.SetExtension", func() { err = p.SetExtension(e.id, val) }) || err != nil {
 				ok = false
